@@ -24,7 +24,7 @@ def make_opts(prefer_cif2=0, encoding=None, force=0, fold=0, prefix=0, depth=1, 
 
 
 def parse(L, data, opts=None, target='new', err_policy='accept', handler_program=None, with_handler=False,
-          syntax=False, fail_at=0, chunk=0, touch=True, handler_answer_fn=None, loop_start_hook=None):
+          syntax=False, fail_at=0, chunk=0, touch=True, handler_answer_fn=None, loop_start_hook=None, omit=()):
     """err_policy: 'accept' | 'default' (no callback: abort on first error) | ('reject-nth', n) | ('reject-code', c)
        | callable(code, index) -> int.   Returns ParseResult; the caller owns res.cif (if target was 'new')."""
     if opts is None:
@@ -62,7 +62,7 @@ def parse(L, data, opts=None, target='new', err_policy='accept', handler_program
         opts.error_callback = f
     if with_handler or handler_program is not None or handler_answer_fn is not None or loop_start_hook is not None:
         res.rec = walker.Recorder(L, handler_program, query=True, parse_mode=True, answer_fn=handler_answer_fn,
-                                  loop_start_hook=loop_start_hook)
+                                  loop_start_hook=loop_start_hook, omit=omit)
         opts.handler = C.pointer(res.rec.handler)
     if syntax:
         def mk(kind):
